@@ -71,10 +71,10 @@ def gen_case(rng, tier, i):
                 break
         calls.append({"key": list(key), "names": chosen, "ow": rng.random() < 0.4,
                       "as_str": len(key) == 1 and rng.random() < 0.3})
-    return {"calls": calls, "ctor_first": rng.random() < 0.3}
+    return {"calls": calls, "ctor_first": rng.random() < 0.3, "queries": rng.random() < 0.35}
 
 
-def run_history(calls, ctor_first):
+def run_history(calls, ctor_first, queries=False):
     """-> list of (outcome, registry) after each call, and the grid"""
     import xgcm
     ds, _ = mg.build_dataset(AXES, MVARS)
@@ -94,9 +94,19 @@ def run_history(calls, ctor_first):
         start = 1
     if grid is None:
         grid = xgcm.Grid(ds, coords=coords, autoparse_metadata=False)
-    for c in calls[start:]:
+    import xarray as _xr
+    for j, c in enumerate(calls[start:]):
         key = c["key"][0] if c.get("as_str") else tuple(c["key"])
         names = c["names"][0] if len(c["names"]) == 1 and c.get("as_str") else list(c["names"])
+        if queries:
+            # asking for a metric (at a position that may have none registered) registers nothing
+            for pos_dims in (("xg", "yc"), ("xr", "yg"), ("xc", "yg"))[: 1 + (j % 3)]:
+                arr = _xr.DataArray(np.zeros((3, 2)), dims=list(pos_dims))
+                for axes_ in (("X",), ("X", "Y")):
+                    try:
+                        grid.get_metric(arr, axes_)
+                    except Exception:  # noqa: BLE001
+                        pass
         try:
             grid.set_metrics(key, names, overwrite=c["ow"])
             states.append(("ok", mg.registry_of(grid)))
@@ -177,7 +187,7 @@ def eval_case(case, drv):
     if case.get("kind") == "ctor2":
         return eval_ctor2(case)
     calls = case["calls"]
-    states, grid, ds = run_history(calls, case["ctor_first"])
+    states, grid, ds = run_history(calls, case["ctor_first"], queries=case.get("queries", False))
     req = (f"c16 2 X Y {mg.enc_mvars(MVARS)} {mg.enc_calls(calls)}")
     ans = drv.ask(req).split(" # ")
     model = []
